@@ -32,6 +32,11 @@ def _base_tree():
 def _case(draw):
     stages = [draw(_base_tree())]
     if draw(st.integers(0, 2)) == 0:
+        # nested (jagged) lists, so that one path component can carry several indices: grid[1][0], grid[0][2][1]
+        rows = [tdoc.sq([tdoc.sc(10 * r + c_) if draw(st.integers(0, 4)) else tdoc.sq([tdoc.sc(7), tdoc.sc(8)], flow=True)
+                         for c_ in range(draw(st.integers(1, 3)))], flow=True) for r in range(draw(st.integers(2, 3)))]
+        stages[0]['items'] = [kv for kv in stages[0]['items'] if kv[0] != 'grid'] + [['grid', tdoc.sq(rows, flow=draw(st.booleans()))]]
+    if draw(st.integers(0, 2)) == 0:
         stages.append(draw(S.mutate(stages[0], S.tree(LEAF, IDENT, max_leaves=3, max_children=2), IDENT)))
         if stages[-1]['t'] != 'map':
             stages.pop()
@@ -65,6 +70,8 @@ def _case(draw):
             if isinstance(node, dict) and node:
                 ks = list(node)
                 k = ks[draw(st.integers(0, len(ks) - 1))]
+                if 'grid' in ks and not path and draw(st.booleans()):
+                    k = 'grid'
                 path.append(k)
                 node = node[k]
             elif isinstance(node, list) and node:
